@@ -135,6 +135,18 @@ def rand_data(rng):
     return d
 
 
+def full_data(rng):
+    """a context in which every name the program generator reads is defined (int-valued where expected)"""
+    ints = lambda: rng.choice([0, 1, 2, 3, 5, -2])
+    d = dict((nm, ints()) for nm in ['a', 'b', 'c', 'x', 'y', 'n'])
+    d['items'] = [ints() for _ in range(rng.randrange(1, 4))]
+    d['d'] = {'$dict': [[k, ints()] for k in ['a', 'k', 'b', 'x', 'val']]}
+    d['obj'] = {'$obj': dict((k, ints()) for k in ['a', 'b', 'k', 'val', 'x'])}
+    d['f'] = {'$fn': 'inc'}
+    d['s'] = rng.choice(['abc', '', 'hello world'])
+    return d
+
+
 # --------------------------------------------------------------------------
 # canonical form of results
 
